@@ -336,6 +336,65 @@ def fam_drs_contraction(p):
                     yield float((ws[0] - ws[1]) @ (ws[0] - ws[1])), "%s / %s from %s, %s" % (m1.name, m2.name, w0.tolist(), np.array(w0p).tolist())
 
 
+def fam_drs_composite(p):
+    """F = f1 + f2 on R, f1 closed convex, f2 L-smooth convex; x_t = prox_{a f2}(w_t), y_t = prox_{a f1}(2 x_t - w_t),
+    w_{t+1} = w_t + theta (y_t - x_t); ||x_0 - x_*||^2 <= 1; performance F(y_{n-1}) - F_*"""
+    L, alpha, theta, n = p["L"], p["alpha"], p["theta"], p["n"]
+    f2s = [m for m in eligible("SmoothConvexFunction", {"L": L}, dims=(1,)) if m.domain is None]
+    f1s = [m for m in eligible("ConvexFunction", {}, dims=(1,)) if m.domain is None][:10] + [MEM.ind_interval(-1.0, 1.0), MEM.ind_interval(0.0, 1.0)]
+    for m2 in f2s:
+        for m1 in f1s:
+            # a minimiser of F (1-d convex): a point where 0 is in dF, by scanning the kinks then bisecting on the sign of dF
+            def dF(t):
+                x_ = v(t)
+                lo_ = min(g[0] for g in m1.grads(x_)) + min(g[0] for g in m2.grads(x_))
+                hi_ = max(g[0] for g in m1.grads(x_)) + max(g[0] for g in m2.grads(x_))
+                if m1.name.startswith("ind"):
+                    # indicator members list only the normal-cone selections they need; at an end point the cone is a half-line
+                    pts_ = [q[0] for q in m1.fine()]
+                    if abs(t - min(pts_)) < 1e-9:
+                        lo_ = -np.inf
+                    if abs(t - max(pts_)) < 1e-9:
+                        hi_ = np.inf
+                return lo_, hi_
+            a, b = -50.0, 50.0
+            if m1.domain is not None:
+                pts = [q[0] for q in m1.fine()]
+                a, b = min(pts), max(pts)
+            xs = None
+            for k in np.arange(-8, 8.5, 0.5):
+                if a <= k <= b:
+                    lo, hi = dF(float(k))
+                    if lo <= 0 <= hi:
+                        xs = v(k)
+                        break
+            if xs is None:
+                for _ in range(100):
+                    mid = (a + b) / 2
+                    if dF(mid)[1] < 0:
+                        a = mid
+                    else:
+                        b = mid
+                xs = v((a + b) / 2)
+                lo, hi = dF(float(xs[0]))
+                if not (lo <= 1e-7 and hi >= -1e-7):
+                    continue
+            Fs = m1.value(xs) + m2.value(xs)
+            for w0 in [v(t) for t in np.linspace(-3, 3, 25)]:
+                x0 = prox(m2, w0, alpha)
+                # both classes are invariant under f -> f(r .) / r^2 and the iteration commutes with it (iterates / r, values / r^2):
+                # a run from distance d is the run from distance 1 on the rescaled member, with performance / d^2
+                d2 = float((x0 - xs) @ (x0 - xs))
+                if d2 < 1e-6:
+                    continue
+                w, y = w0.copy(), None
+                for _ in range(n):
+                    x = prox(m2, w, alpha)
+                    y = prox(m1, 2 * x - w, alpha)
+                    w = w + theta * (y - x)
+                yield (m1.value(y) + m2.value(y) - Fs) / d2, "%s + %s from w0=%s (rescaled to unit distance)" % (m1.name, m2.name, w0.tolist())
+
+
 def fam_frank_wolfe(p):
     L, D, n = p["L"], p["D"], p["n"]
     sets = [(-D / 2, D / 2), (0.0, D), (-D, 0.0)]
@@ -631,8 +690,11 @@ def fam_accelerated_proximal_point(p):
         if not m.stationary or m.domain is not None:
             continue
         xs = m.stationary[0]
-        for x0 in [p_ for p_ in [v(t) for t in np.linspace(-2, 2, 17)]]:
-            if m.value(x0) - fstar(m) + A0 / 2 * float((x0 - xs) @ (x0 - xs)) > 1 + 1e-12:
+        for x0 in [v(t) for t in np.linspace(-2, 2, 17)] + [v(0.02 * 1.15 ** k) for k in range(60)]:
+            # convex functions are invariant under f -> f(r .) / r^2, which divides iterates by r and both the initial quantity and
+            # the performance by r^2: a run with initial quantity Phi is the run with Phi = 1 on the rescaled member, performance / Phi
+            Phi = m.value(x0) - fstar(m) + A0 / 2 * float((x0 - xs) @ (x0 - xs))
+            if Phi < 1e-6:
                 continue
             x, vv, A = x0.copy(), x0.copy(), A0
             for i in range(n):
@@ -641,7 +703,7 @@ def fam_accelerated_proximal_point(p):
                 x = prox(m, y, gammas[i])
                 vv = vv + 1 / alpha * (x - y)
                 A = (1 - alpha) * A
-            yield m.value(x) - fstar(m), "%s from %s" % (m.name, x0.tolist())
+            yield (m.value(x) - fstar(m)) / Phi, "%s from %s (rescaled to unit initial quantity)" % (m.name, x0.tolist())
 
 
 def _proj_interval(x, a, b):
@@ -724,6 +786,7 @@ FAMILIES = {
     "gradient_exact_line_search": fam_exact_line_search,
     "proximal_gradient": fam_proximal_gradient,
     "douglas_rachford_splitting_contraction": fam_drs_contraction,
+    "douglas_rachford_splitting": fam_drs_composite,
     "frank_wolfe": fam_frank_wolfe,
     "halpern_iteration": fam_halpern,
     "krasnoselskii_mann_constant_step_sizes": fam_km,
